@@ -20,9 +20,9 @@ IDS = ["C%02d" % i for i in range(1, 21)]
 
 # Per property: package, tests. A test = name, checks per tier (None = plain test run once),
 # shards per tier, race (thorough only unless 'race_quick'), extra env.
-def T(name, quick=None, thorough=None, sq=1, st=8, race=False, steps=None, timeout_q=600, timeout_t=3000, env=None, tier=None):
+def T(name, quick=None, thorough=None, sq=1, st=8, race=False, steps=None, timeout_q=600, timeout_t=3000, env=None, tier=None, pkg=None):
     return dict(name=name, quick=quick, thorough=thorough, sq=sq, st=st, race=race, steps=steps,
-                timeout_q=timeout_q, timeout_t=timeout_t, env=env or {}, tier=tier)
+                timeout_q=timeout_q, timeout_t=timeout_t, env=env or {}, tier=tier, pkg=pkg)
 
 sys.path.insert(0, VERIF)
 import checks_config  # noqa: E402
@@ -41,7 +41,7 @@ def seed_for(base, pi, ti, k):
 
 
 def build(pkg, work, race):
-    out = os.path.join(work, "test-race.bin" if race else "test.bin")
+    out = os.path.join(work, "%s-test-race.bin" % pkg if race else "%s-test.bin" % pkg)
     cmd = ["go", "test", "-c", "-tags", "verif", "-vet=off", "-o", out]
     if race:
         cmd.append("-race")
@@ -200,14 +200,21 @@ def main():
 
 def run(a, pid, tier, cfg, pi, work, t0):
     need_race = any(t["race"] for t in cfg["tests"]) and (tier == "thorough" or cfg.get("race_quick")) and not a.replay
-    binp = build(cfg["pkg"], work, False)
-    if not binp:
-        print("INCONCLUSIVE property=%s build failed" % pid)
-        return 2
-    racebin = build(cfg["pkg"], work, True) if need_race else None
-    if need_race and not racebin:
-        print("INCONCLUSIVE property=%s race build failed" % pid)
-        return 2
+    # a test may live in another property's package (shared machinery): one binary per package
+    pkgs = [cfg["pkg"]] + sorted({t["pkg"] for t in cfg["tests"] if t.get("pkg") and t["pkg"] != cfg["pkg"]})
+    bins, racebins = {}, {}
+    for pk in pkgs:
+        shutil.rmtree(os.path.join(HARNESS, pk, "testdata", "rapid"), ignore_errors=True)
+        bins[pk] = build(pk, work, False)
+        if not bins[pk]:
+            print("INCONCLUSIVE property=%s build failed (%s)" % (pid, pk))
+            return 2
+        if need_race and any(t["race"] and (t.get("pkg") or cfg["pkg"]) == pk for t in cfg["tests"]):
+            racebins[pk] = build(pk, work, True)
+            if not racebins[pk]:
+                print("INCONCLUSIVE property=%s race build failed (%s)" % (pid, pk))
+                return 2
+    binp = bins[cfg["pkg"]]
 
     base_env = goenv()
     base_env.update(VERIF_OUT=os.path.join(work, "out"), VERIF_REPLAY_DIR=os.path.join(VERIF, "replays"),
@@ -218,7 +225,12 @@ def run(a, pid, tier, cfg, pi, work, t0):
     jobs = []
     if a.replay:
         env = dict(base_env, VERIF_REPLAY=os.path.abspath(a.replay), VERIF_SHARD="replay", VERIF_SHARD_SEED="replay")
-        jobs.append(dict(bin=binp, args=["-test.run", "^TestReplay$", "-test.v", "-test.count=1", "-test.timeout=600s"], env=env,
+        # a case saved by a test that lives in another property's package is replayed there
+        rdir = os.path.basename(os.path.dirname(os.path.abspath(a.replay)))
+        rbin = binp
+        if rdir in CHECKS and CHECKS[rdir]["pkg"] in bins:
+            rbin = bins[CHECKS[rdir]["pkg"]]
+        jobs.append(dict(bin=rbin, args=["-test.run", "^TestReplay$", "-test.v", "-test.count=1", "-test.timeout=600s"], env=env,
                          log=os.path.join(work, "replay.log"), timeout=600, test="TestReplay", want=None, shard="replay"))
     else:
         for ti, t in enumerate(cfg["tests"]):
@@ -239,8 +251,10 @@ def run(a, pid, tier, cfg, pi, work, t0):
                     args += ["-rapid.checks=%d" % per, "-rapid.seed=%d" % sd, "-rapid.nofailfile", "-rapid.shrinktime=60s"]
                     if t["steps"]:
                         args += ["-rapid.steps=%d" % t["steps"]]
+                pk = t.get("pkg") or cfg["pkg"]
+                racebin = racebins.get(pk)
                 use_race = t["race"] and racebin and (k % 4 == 3 or shards == 1)
-                jobs.append(dict(bin=racebin if use_race else binp, args=args, env=env,
+                jobs.append(dict(bin=racebin if use_race else bins[pk], args=args, env=env,
                                  log=os.path.join(work, "%s-%d.log" % (t["name"], k)), timeout=timeout,
                                  test=t["name"], want=want, shard=k, race=bool(use_race)))
 
@@ -278,8 +292,9 @@ def run(a, pid, tier, cfg, pi, work, t0):
             if len(merged["samples"]) < 6 and s.get("label") not in [x.get("label") for x in merged["samples"]]:
                 merged["samples"].append(s)
         merged["extra"].update(p.get("extra") or {})
-        merged["rule"] = p.get("rule") or merged["rule"]
-        merged["assumptions"] = p.get("assumptions") or merged["assumptions"]
+        if p.get("property_id") == pid or not merged["rule"]:
+            merged["rule"] = p.get("rule") or merged["rule"]
+            merged["assumptions"] = p.get("assumptions") or merged["assumptions"]
     if not merged["samples"]:
         for p in parts:
             merged["samples"] += (p.get("samples") or [])[:2]
